@@ -91,6 +91,15 @@ def gen_cases(run):
         for r in range(7):
             px += F.max_row_pixels(body[r * 5 : (r + 1) * 5], mode)
         cases.append(_mk("max", F.MAX_FLAGS[mode] + ["-newsroom"], F.newsroom_file(5, 7, body), ("rgb", 40, 7, px), [], f"max newsroom {mode}"))
+        # header bytes at and above 128 (unsigned): 128 / 255 rows, 128 columns of bytes
+        for colsb, nrows in ((3, 127), (3, 128), (2, 255), (128, 2)):
+            if mode != F.MAX_MODES[0] and (colsb, nrows) != (3, 128):
+                continue
+            b2 = C.body_lin(colsb * nrows, 5, 1)
+            px2 = []
+            for r in range(nrows):
+                px2 += F.max_row_pixels(b2[r * colsb : (r + 1) * colsb], mode)
+            cases.append(_mk("max", F.MAX_FLAGS[mode] + ["-newsroom"], F.newsroom_file(colsb, nrows, b2), ("rgb", colsb * 8, nrows, px2), [], f"max newsroom {colsb}x{nrows} {mode}"))
         # the same picture behind a preamble that -s skips (header variant x option: both must compose), and with -w / -r that Newsroom ignores
         cases.append(_mk("max", F.MAX_FLAGS[mode] + ["-newsroom", "-s", "3"], bytes([7, 3, 0x55]) + F.newsroom_file(5, 7, body), ("rgb", 40, 7, px), [], f"max newsroom skip {mode}"))
         cases.append(_mk("max", F.MAX_FLAGS[mode] + ["-s", "1", "-newsroom", "-w", "16"], bytes([9]) + F.newsroom_file(5, 7, body), ("rgb", 40, 7, px), [], f"max newsroom skip width {mode}"))
